@@ -53,23 +53,51 @@ Proof.
   apply (fits_par x (fits_pnode x) Hx fl true true 0). auto.
 Qed.
 
-(* print a1, ..., an > dest : the arguments are the n trees, the redirection is >, the destination
-   is dest — provided > may follow the last argument as written (ok true ... TGreater), which fails
-   exactly when its right edge is an unparenthesised ?: (F-C04-1) *)
-Theorem print_gt_is_redirect : forall fl a args dest rest,
+(* the three redirection tokens of print / printf *)
+Definition redir_of (t : tok) : option redir :=
+  match t with TGreater => Some RGreater | TAppend => Some RAppend | TPipe => Some RPipe | _ => None end.
+
+Lemma last_wf_map (g : expr -> expr) : forall (l : list expr) d, l <> [] -> all_wf wf l ->
+  exists x, wf x /\ last (map g l) d = g x.
+Proof.
+  induction l as [|x l IH]; intros d Hne Hw; [congruence|].
+  destruct Hw as [Hx Hl]. destruct l as [|y l'].
+  - exists x. split; [exact Hx | reflexivity].
+  - destruct (IH d ltac:(discriminate) Hl) as (z & Hz & E). exists z. split; [exact Hz|].
+    cbn [map] in *. exact E.
+Qed.
+
+(* inside print, > >> and | may follow any argument as written by either printer: every level
+   function that is still open when the token arrives belongs to the print tower (which leaves
+   them to the statement) or reads operands at the ^ level or above *)
+Lemma ok_redirect fl e rt rd : wf e -> redir_of rt = Some rd -> ok true (par fl true 0 e) rt = true.
+Proof.
+  intros Hwf Hr. apply ok_par_pc; [exact Hwf | |]; destruct rt; try discriminate; cbn; lia.
+Qed.
+
+(* print a1, ..., an > dest (also >> and |): the arguments are the n trees, the token is the
+   redirection, the destination is dest — for all well-formed arguments, in both writings.
+   (Before the repair of F-C04-1/2 this needed the guard "the last argument does not end in an
+   unparenthesised ?:".) *)
+Theorem print_redirects : forall rt rd fl a args dest rest,
+  redir_of rt = Some rd ->
   all_wf wf (a :: args) -> wf dest ->
   let args' := map (par fl true 0) (a :: args) in
   let dest' := par fl false 0 dest in
-  ok true (last args' (ENum [])) TGreater = true ->
   tok_cont false (hd_tok rest) = 0 ->
   exists n0, forall n, n0 <= n ->
-    p_simple_stmt n (TPrint :: commas flat args' ++ TGreater :: flat dest' ++ rest)
-    = POk (TopPrint false RGreater (Some dest') args', rest).
+    p_simple_stmt n (TPrint :: commas flat args' ++ rt :: flat dest' ++ rest)
+    = POk (TopPrint false rd (Some dest') args', rest).
 Proof.
-  intros fl a args dest rest Hw Hwd args' dest' Hok Hz.
-  assert (HL : ExprList true true (commas flat args' ++ TGreater :: flat dest' ++ rest)
-                 (args', TGreater :: flat dest' ++ rest)).
-  { subst args'. cbn [map]. apply exprlist_all_pc; try reflexivity.
+  intros rt rd fl a args dest rest Hrt Hw Hwd args' dest' Hz.
+  assert (Hok : ok true (last args' (ENum [])) rt = true).
+  { subst args'. destruct (last_wf_map (par fl true 0) (a :: args) (ENum []) ltac:(discriminate) Hw) as (x & Hx & ->).
+    eapply ok_redirect; eassumption. }
+  assert (HL : ExprList true true (commas flat args' ++ rt :: flat dest' ++ rest)
+                 (args', rt :: flat dest' ++ rest)).
+  { subst args'. cbn [map]. apply exprlist_all_pc.
+    - destruct rt; try discriminate; reflexivity.
+    - destruct rt; try discriminate; reflexivity.
     - apply all_M.
     - apply (all_fit_args fl (a :: args)). exact Hw.
     - exact Hok. }
@@ -78,12 +106,13 @@ Proof.
     as [n2 HD].
   exists (Nat.max n1 n2). intros n Hn.
   cbn [p_simple_stmt]. eapply exprlist_mono with (m := n) in HL; [|lia].
-  rewrite HL. cbn [pbind]. unfold dest'. rewrite (HD n) by lia. cbn [pbind].
+  rewrite HL. cbn [pbind]. unfold dest'.
   assert (Hnm : match args' with [EMulti es] => es | _ => args' end = args').
   { subst args'. cbn [map]. destruct args as [|b args]; [|cbn [map]; destruct (par fl true 0 a); reflexivity]. cbn [map].
     destruct Hw as [Ha _]. pose proof (par_not_multi fl true 0 a Ha) as Hn'.
     destruct (par fl true 0 a); try reflexivity. contradiction. }
-  rewrite Hnm. subst args'. cbn [map]. reflexivity.
+  destruct rt; try discriminate; injection Hrt as <-;
+    rewrite (HD n) by lia; cbn [pbind]; rewrite Hnm; subst args'; cbn [map]; reflexivity.
 Qed.
 
 (* fuel monotonicity of the statement-level wrapper *)
@@ -102,7 +131,7 @@ Qed.
 Lemma p_simple_stmt_stable n m ts r : n <= m -> p_simple_stmt n ts = r -> r <> PFuel -> p_simple_stmt m ts = r.
 Proof. intros Hnm H Hr. destruct (p_simple_stmt_le n m ts Hnm) as [E | E]; congruence. Qed.
 
-(* ---- the statement of the property for print, without the guard, and its refutation ---- *)
+(* ---- the statement of the property for print: formerly refuted (F-C04-1, F-C04-2), now theorems ---- *)
 
 Definition print_gt_full_statement : Prop :=
   forall fl a args dest rest,
@@ -114,28 +143,9 @@ Definition print_gt_full_statement : Prop :=
     p_simple_stmt n (TPrint :: commas flat args' ++ TGreater :: flat dest' ++ rest)
     = POk (TopPrint false RGreater (Some dest') args', rest).
 
-(* print 1 ? 2 : 3 > "f" } *)
-Definition w_cond : expr := ECond (ENum [49%Z]) (ENum [50%Z]) (ENum [51%Z]).
-Definition w_dest : expr := EStr [102%Z].
+Theorem print_gt_is_redirect : print_gt_full_statement.
+Proof. intros fl a args dest rest. apply (print_redirects TGreater RGreater). reflexivity. Qed.
 
-Lemma w_print_gt_computed :
-  p_simple_stmt 60 (TPrint :: pp_min true w_cond ++ TGreater :: pp_min false w_dest ++ [TRBrace])
-  = POk (TopPrint false RNone None
-           [ECond (ENum [49%Z]) (ENum [50%Z]) (EBinary BGt (ENum [51%Z]) (EStr [102%Z]))], [TRBrace]).
-Proof. vm_compute. reflexivity. Qed.
-
-Theorem print_gt_refuted : ~ print_gt_full_statement.
-Proof.
-  intros H.
-  destruct (H false w_cond [] w_dest [TRBrace]) as [n0 Hn]; try (cbn; tauto); try reflexivity.
-  specialize (Hn (Nat.max n0 60) ltac:(lia)).
-  pose proof (p_simple_stmt_stable 60 (Nat.max n0 60) _ _ ltac:(lia) w_print_gt_computed ltac:(discriminate)) as Hc.
-  change (map (par false true 0) [w_cond]) with [par false true 0 w_cond] in Hn.
-  cbn [commas] in Hn. unfold pp_min in Hc.
-  rewrite Hc in Hn. discriminate.
-Qed.
-
-(* the same with a pipe: print 1 ? 2 : 3 | "f" is rejected *)
 Definition print_pipe_full_statement : Prop :=
   forall fl a args dest rest,
   all_wf wf (a :: args) -> wf dest ->
@@ -146,20 +156,22 @@ Definition print_pipe_full_statement : Prop :=
     p_simple_stmt n (TPrint :: commas flat args' ++ TPipe :: flat dest' ++ rest)
     = POk (TopPrint false RPipe (Some dest') args', rest).
 
-Lemma w_print_pipe_computed :
-  p_simple_stmt 60 (TPrint :: pp_min true w_cond ++ TPipe :: pp_min false w_dest ++ [TRBrace]) = PErr.
+Theorem print_pipe_is_redirect : print_pipe_full_statement.
+Proof. intros fl a args dest rest. apply (print_redirects TPipe RPipe). reflexivity. Qed.
+
+(* the former witnesses: print 1 ? 2 : 3 > "f" }   and   print 1 ? 2 : 3 | "f" } *)
+Definition w_cond : expr := ECond (ENum [49%Z]) (ENum [50%Z]) (ENum [51%Z]).
+Definition w_dest : expr := EStr [102%Z].
+
+Lemma w_print_gt_computed :
+  p_simple_stmt 60 (TPrint :: pp_min true w_cond ++ TGreater :: pp_min false w_dest ++ [TRBrace])
+  = POk (TopPrint false RGreater (Some w_dest) [w_cond], [TRBrace]).
 Proof. vm_compute. reflexivity. Qed.
 
-Theorem print_pipe_refuted : ~ print_pipe_full_statement.
-Proof.
-  intros H.
-  destruct (H false w_cond [] w_dest [TRBrace]) as [n0 Hn]; try (cbn; tauto); try reflexivity.
-  specialize (Hn (Nat.max n0 60) ltac:(lia)).
-  pose proof (p_simple_stmt_stable 60 (Nat.max n0 60) _ _ ltac:(lia) w_print_pipe_computed ltac:(discriminate)) as Hc.
-  change (map (par false true 0) [w_cond]) with [par false true 0 w_cond] in Hn.
-  cbn [commas] in Hn. unfold pp_min in Hc.
-  rewrite Hc in Hn. discriminate.
-Qed.
+Lemma w_print_pipe_computed :
+  p_simple_stmt 60 (TPrint :: pp_min true w_cond ++ TPipe :: pp_min false w_dest ++ [TRBrace])
+  = POk (TopPrint false RPipe (Some w_dest) [w_cond], [TRBrace]).
+Proof. vm_compute. reflexivity. Qed.
 
 (* ---- the table order "++ -- below $" without the guard of wf: $$x++ ---- *)
 
